@@ -522,6 +522,11 @@ func c10Apply(s *treeState, op Op) *Violation {
 	if v := c10GoType(dv, op.arg("gotype")); v != "" {
 		return violation("C10", "go-type", "C10:gotype:"+ctx, "after SetNode(%s, %s) GetNode returned %s: %s", path, model.DescribeTV(tv), dv.Type(), v)
 	}
+	// what GetNode said earlier (the node's path) must still read the same after the calls made since
+	if ch := s.heldChanged(); ch != "" {
+		return violation("C10", "earlier-result-changed", "C10:earlier-result-changed", "after SetNode(%s) and GetNode, %s", path, ch)
+	}
+	s.hold("the path of a node GetNode", nodes[0].Path)
 	s.st.logf("set %s %s -> ok %s", path, model.DescribeTV(tv), want)
 	return nil
 }
